@@ -461,245 +461,4 @@ theorem rev_tail_lt (l : FDict ℝ) (top : ℝ × ℝ) (tl : FDict ℝ) (hs : St
 theorem mono_sortF (d : FDict ℝ) (hnd : KeysNodup d) (hm : Mono d) : Mono (sortF d) :=
   fun p hp q hq hpq => hm p (mem_sortF d hnd p hp) q (mem_sortF d hnd q hq) hpq
 
-/-- strict version of `SegOK`: the limit lies strictly below the upper diameter of the first remaining segment, the remaining points increase
-strictly in fraction and in diameter, and the given fractions stay below 0.999 -/
-structure StrictSeg (dlim : ℝ) (lo nx : ℝ × ℝ) (rest : List (ℝ × ℝ)) (B : ℝ) : Prop where
-  f0 : 0 ≤ lo.1
-  f1 : lo.1 < nx.1
-  d0 : 0 < lo.2
-  d1 : lo.2 < nx.2
-  lim0 : 0 < dlim
-  lim1 : dlim < nx.2
-  chain : List.IsChain (fun p q : ℝ × ℝ => p.1 < q.1 ∧ p.2 < q.2) (nx :: rest)
-  le : ∀ p ∈ nx :: rest, p.1 ≤ B
-  B999 : B < 0.999
-
-theorem StrictSeg.toSegOK {dlim : ℝ} {lo nx : ℝ × ℝ} {rest : List (ℝ × ℝ)} {B : ℝ} (h : StrictSeg dlim lo nx rest B) : SegOK dlim lo nx rest B :=
-  { f0 := h.f0, f1 := h.f1, d0 := h.d0, d1 := h.d1, lim0 := h.lim0, lim1 := h.lim1.le,
-    chain := List.IsChain.imp (fun _ _ hab => hab.1.le) h.chain, le := h.le }
-
-theorem X_lt_fnext {dlim : ℝ} {lo nx : ℝ × ℝ} {rest : List (ℝ × ℝ)} {B : ℝ} (h : StrictSeg dlim lo nx rest B) :
-    nx.1 - (Transc.log10 nx.2 - Transc.log10 dlim) * (nx.1 - lo.1) / (Transc.log10 nx.2 - Transc.log10 lo.2) < nx.1 := by
-  have h1 : 0 < Transc.log10 nx.2 - Transc.log10 dlim := sub_pos.2 (log10_lt h.lim0 h.lim1)
-  have h2 : 0 < Transc.log10 nx.2 - Transc.log10 lo.2 := sub_pos.2 (log10_lt h.d0 h.d1)
-  have h3 : 0 < nx.1 - lo.1 := sub_pos.2 h.f1
-  have : 0 < (Transc.log10 nx.2 - Transc.log10 dlim) * (nx.1 - lo.1) / (Transc.log10 nx.2 - Transc.log10 lo.2) :=
-    div_pos (mul_pos h1 h3) h2
-  linarith
-
-/-- the diameter extrapolated to fraction 0 along the first segment lies below the segment's upper diameter -/
-theorem dmin_lt {dlim : ℝ} {lo nx : ℝ × ℝ} {rest : List (ℝ × ℝ)} {B : ℝ} (h : StrictSeg dlim lo nx rest B) :
-    pow10 (Transc.log10 nx.2 - (Transc.log10 nx.2 - Transc.log10 lo.2) * (nx.1 - (0.0:ℝ)) / (nx.1 - lo.1)) < nx.2 := by
-  have h2 : 0 < Transc.log10 nx.2 - Transc.log10 lo.2 := sub_pos.2 (log10_lt h.d0 h.d1)
-  have h3 : 0 < nx.1 - lo.1 := sub_pos.2 h.f1
-  have h4 : 0 < nx.1 - (0.0:ℝ) := by rw [sci_zero]; linarith [h.f0, h.f1]
-  have : 0 < (Transc.log10 nx.2 - Transc.log10 lo.2) * (nx.1 - (0.0:ℝ)) / (nx.1 - lo.1) := div_pos (mul_pos h2 h4) h3
-  have hlt : Transc.log10 nx.2 - (Transc.log10 nx.2 - Transc.log10 lo.2) * (nx.1 - (0.0:ℝ)) / (nx.1 - lo.1) < Transc.log10 nx.2 := by linarith
-  have := pow10_strictMono hlt
-  rwa [pow10_log10 nx.2 (lt_trans h.d0 h.d1)] at this
-
-/-- after the skip: (1) the diameters of the discretised grading increase strictly with the fraction; (2) no node lies left of the start fraction
-or below the start diameter (start = (X, dlim) if the first segment reaches the limit at a positive fraction X, else (0, the diameter extrapolated to
-fraction 0)); (3) in the first case the start node (X, dlim) is a node of the grading; (4) every remaining given point is a node of the grading -/
-theorem afterSkip_facts (dlim : ℝ) (lo nx : ℝ × ℝ) (rest : List (ℝ × ℝ)) (pl n : Nat) (B : ℝ) (h : StrictSeg dlim lo nx rest B) :
-    Mono (afterSkip (fun k : Nat => (k : ℝ)) dlim lo nx rest pl n).gsd ∧
-    Above (afterSkip (fun k : Nat => (k : ℝ)) dlim lo nx rest pl n).gsd
-      (if decide (nx.1 - (Transc.log10 nx.2 - Transc.log10 dlim) * (nx.1 - lo.1) / (Transc.log10 nx.2 - Transc.log10 lo.2) > (0.0:ℝ)) = true
-        then nx.1 - (Transc.log10 nx.2 - Transc.log10 dlim) * (nx.1 - lo.1) / (Transc.log10 nx.2 - Transc.log10 lo.2) else (0.0:ℝ))
-      (if decide (nx.1 - (Transc.log10 nx.2 - Transc.log10 dlim) * (nx.1 - lo.1) / (Transc.log10 nx.2 - Transc.log10 lo.2) > (0.0:ℝ)) = true
-        then dlim else pow10 (Transc.log10 nx.2 - (Transc.log10 nx.2 - Transc.log10 lo.2) * (nx.1 - (0.0:ℝ)) / (nx.1 - lo.1))) ∧
-    (decide (nx.1 - (Transc.log10 nx.2 - Transc.log10 dlim) * (nx.1 - lo.1) / (Transc.log10 nx.2 - Transc.log10 lo.2) > (0.0:ℝ)) = true →
-      (nx.1 - (Transc.log10 nx.2 - Transc.log10 dlim) * (nx.1 - lo.1) / (Transc.log10 nx.2 - Transc.log10 lo.2), dlim) ∈
-        (afterSkip (fun k : Nat => (k : ℝ)) dlim lo nx rest pl n).gsd) ∧
-    (∀ q ∈ nx :: rest, q ∈ (afterSkip (fun k : Nat => (k : ℝ)) dlim lo nx rest pl n).gsd) := by
-  have hXlt := X_lt_fnext h
-  have hdmin := dmin_lt h
-  unfold afterSkip
-  simp only
-  set X := nx.1 - (Transc.log10 nx.2 - Transc.log10 dlim) * (nx.1 - lo.1) / (Transc.log10 nx.2 - Transc.log10 lo.2) with hX
-  set dmin := pow10 (Transc.log10 nx.2 - (Transc.log10 nx.2 - Transc.log10 lo.2) * (nx.1 - (0.0:ℝ)) / (nx.1 - lo.1)) with hdm
-  have hnx0 : 0 < nx.1 := by linarith [h.f0, h.f1]
-  have hstart : ∀ (b : Bool), (b = true → 0 < X) →
-      Mono (if b = true then [(X, dlim)] else []) ∧
-      Below (if b = true then [(X, dlim)] else []) (if b = true then X else (0.0:ℝ)) (if b = true then dlim else dmin) ∧
-      StrictOK (if b = true then X else (0.0:ℝ)) (if b = true then dlim else dmin) nx rest ∧
-      Pos (if b = true then [(X, dlim)] else []) ∧ KeysNodup (if b = true then [(X, dlim)] else []) ∧
-      KeysIn (if b = true then [(X, dlim)] else []) 0 B ∧ 0 ≤ (if b = true then X else (0.0:ℝ)) ∧
-      Above (if b = true then [(X, dlim)] else []) (if b = true then X else (0.0:ℝ)) (if b = true then dlim else dmin) := by
-    intro b hb
-    cases b with
-    | false =>
-      refine ⟨?_, ?_, ?_, ?_, ?_, ?_, ?_, ?_⟩
-      · intro p hp; simp at hp
-      · intro p hp; simp at hp
-      · simp only [Bool.false_eq_true, if_false]
-        exact ⟨by rw [sci_zero]; exact hnx0, hdmin, pow10_pos _, h.chain⟩
-      · intro p hp; simp at hp
-      · simp [KeysNodup]
-      · simp [keysIn_nil]
-      · simp
-      · intro p hp; simp at hp
-    | true =>
-      have hx := hb rfl
-      simp only [if_true]
-      refine ⟨?_, ?_, ⟨hXlt, h.lim1, h.lim0, h.chain⟩, ?_, by simp [KeysNodup], ?_, hx.le, ?_⟩
-      · intro p hp q hq hpq
-        simp only [List.mem_singleton] at hp hq
-        rw [hp, hq] at hpq; exact absurd hpq (lt_irrefl _)
-      · intro p hp
-        simp only [List.mem_singleton] at hp
-        rw [hp]; exact ⟨le_refl _, le_refl _⟩
-      · intro p hp
-        simp only [List.mem_singleton] at hp
-        rw [hp]; exact h.lim0
-      · intro p hp
-        simp only [List.mem_singleton] at hp
-        rw [hp]; exact ⟨hx.le, le_trans hXlt.le (h.le nx List.mem_cons_self)⟩
-      · intro p hp
-        simp only [List.mem_singleton] at hp
-        rw [hp]; exact ⟨le_refl _, le_refl _⟩
-  have hdec : decide (X > (0.0:ℝ)) = true → 0 < X := by
-    intro hd; simpa [sci_zero] using hd
-  obtain ⟨hm0, hb0, hok0, hp0, hnd0, hk0, hf0, ha0⟩ := hstart (decide (X > (0.0:ℝ))) hdec
-  have hfrok : FracsOK (if decide (X > (0.0:ℝ)) = true then X else (0.0:ℝ)) nx rest B :=
-    ⟨hok0.1.le, List.IsChain.imp (fun _ _ hab => hab.1.le) h.chain, h.le⟩
-  set fl0 := (if decide (X > (0.0:ℝ)) = true then X else (0.0:ℝ)) with hfl0
-  set dl0 := (if decide (X > (0.0:ℝ)) = true then dlim else dmin) with hdl0
-  set dd0 : FDict ℝ := (if decide (X > (0.0:ℝ)) = true then [(X, dlim)] else []) with hdd0
-  have hM := segments_mono ((n - pl - 1 + pl - 1) / pl) (rest.length + 1) fl0 dl0 nx rest dd0 (0.0:ℝ) hm0 hb0 hok0
-  have hP := segments_pos_fs ((n - pl - 1 + pl - 1) / pl) (rest.length + 1) fl0 dl0 nx rest dd0 (0.0:ℝ) hp0 hok0
-  have hN := segments_nodup ((n - pl - 1 + pl - 1) / pl) (fun k : Nat => (k : ℝ)) (rest.length + 1) fl0 dl0 nx rest dd0 (0.0:ℝ) hnd0
-  have hK := segments_keysIn ((n - pl - 1 + pl - 1) / pl) (rest.length + 1) fl0 dl0 nx rest dd0 (0.0:ℝ) 0 B hk0 hf0 (by norm_num) hfrok
-  have hA := segments_above ((n - pl - 1 + pl - 1) / pl) fl0 dl0 (rest.length + 1) fl0 dl0 nx rest dd0 (0.0:ℝ) ha0 (le_refl _) (le_refl _) hok0
-  have hNodes := segments_nodes ((n - pl - 1 + pl - 1) / pl) (rest.length + 1) fl0 dl0 nx rest dd0 (0.0:ℝ) (Nat.lt_succ_self _) hf0 hok0
-  have hMem : decide (X > (0.0:ℝ)) = true →
-      (X, dlim) ∈ (segments ((n - pl - 1 + pl - 1) / pl) (fun k : Nat => (k : ℝ)) (rest.length + 1) fl0 dl0 nx rest dd0 (0.0 : ℝ)).1 ∧ fl0 = X := by
-    intro hb
-    have e1 : fl0 = X := by rw [hfl0, if_pos hb]
-    have e3 : (X, dlim) ∈ dd0 := by rw [hdd0, if_pos hb]; exact List.mem_singleton.2 rfl
-    exact ⟨(segments_keeps_above ((n - pl - 1 + pl - 1) / pl) fl0 dl0 (X, dlim) (rest.length + 1) fl0 dl0 nx rest dd0 (0.0:ℝ) ha0 (le_refl _) (le_refl _)
-      ⟨e3, by rw [e1]⟩ hok0).2, e1⟩
-  generalize hseg : segments ((n - pl - 1 + pl - 1) / pl) (fun k : Nat => (k : ℝ)) (rest.length + 1) fl0 dl0 nx rest dd0 (0.0 : ℝ) = sg
-  rw [hseg] at hM hP hN hK hA hMem hNodes
-  obtain ⟨d, fs⟩ := sg
-  simp only at hM hP hN hK hA hMem hNodes ⊢
-  have hfs : 0 < fs := hP.2 (Nat.succ_pos _)
-  cases hr : (sortF d).reverse with
-  | nil =>
-    simp only
-    exact ⟨mono_sortF d hN hM, fun p hp => hA p (mem_sortF d hN p hp), fun hb => mem_sortF_of_mem d _ (hMem hb).1,
-        fun q hq => mem_sortF_of_mem d q (hNodes q hq)⟩
-  | cons top tl =>
-    cases tl with
-    | nil =>
-      simp only
-      exact ⟨mono_sortF d hN hM, fun p hp => hA p (mem_sortF d hN p hp), fun hb => mem_sortF_of_mem d _ (hMem hb).1,
-        fun q hq => mem_sortF_of_mem d q (hNodes q hq)⟩
-    | cons below tl' =>
-      simp only
-      have hs := sortF_strict d hN
-      have htop : top ∈ d := by
-        apply mem_sortF d hN
-        have : top ∈ (sortF d).reverse := by rw [hr]; exact List.mem_cons_self
-        exact List.mem_reverse.1 this
-      have hbel : below ∈ d := by
-        apply mem_sortF d hN
-        have : below ∈ (sortF d).reverse := by rw [hr]; exact List.mem_cons_of_mem _ List.mem_cons_self
-        exact List.mem_reverse.1 this
-      have hbt : below.1 < top.1 := rev_tail_lt (sortF d) top (below :: tl') hs hr below List.mem_cons_self
-      have hbt2 : below.2 < top.2 := hM below hbel top htop hbt
-      have hbelow : Below d top.1 top.2 := by
-        intro p hp
-        rcases last_is_max (sortF d) top (below :: tl') hs hr p (mem_sortF_of_mem d p hp) with e | e
-        · rw [e]; exact ⟨le_refl _, le_refl _⟩
-        · exact ⟨e.le, (hM p hp top htop e).le⟩
-      have htopB : top.1 ≤ B := (hK.1 top htop).2
-      have hkey : top.1 < pyMin (top.1 + fs) (0.999 : ℝ) := by
-        rw [pyMin_eq_min]
-        exact lt_min (by linarith) (by linarith [h.B999])
-      have hg := seg_strictMono below.1 below.2 top.1 top.2 hbt (hP.1 below hbel) hbt2
-      have hval : top.2 < pow10 (logInterp below.1 below.2 top.1 top.2 (pyMin (top.1 + fs) (0.999 : ℝ))) := by
-        have := hg hkey
-        rwa [seg_right below.1 below.2 top.1 top.2 (hP.1 top htop)] at this
-      have hfin := setF_mono_below d _ _ top.1 top.2 hM hbelow hkey hval
-      have hAt := hA top htop
-      have hAfin := setF_above d (pyMin (top.1 + fs) (0.999 : ℝ)) (pow10 (logInterp below.1 below.2 top.1 top.2 (pyMin (top.1 + fs) (0.999 : ℝ))))
-        fl0 dl0 hA (by linarith [hAt.1]) (by linarith [hAt.2])
-      refine ⟨mono_sortF _ (setF_nodup _ _ _ hN) hfin.1, fun p hp => hAfin p (mem_sortF _ (setF_nodup _ _ _ hN) p hp), fun hb => ?_, fun q hq => ?_⟩
-      · apply mem_sortF_of_mem
-        apply setF_keeps d _ _ _ (hMem hb).1
-        have : X ≤ top.1 := by rw [← (hMem hb).2]; exact hAt.1
-        simp only
-        linarith
-      · apply mem_sortF_of_mem
-        apply setF_keeps d _ _ q (hNodes q hq)
-        have := (hbelow q (hNodes q hq)).1
-        linarith
-
-/-- the diameters of the grading produced after the skip increase strictly with the fraction -/
-theorem afterSkip_mono (dlim : ℝ) (lo nx : ℝ × ℝ) (rest : List (ℝ × ℝ)) (pl n : Nat) (B : ℝ) (h : StrictSeg dlim lo nx rest B) :
-    Mono (afterSkip (fun k : Nat => (k : ℝ)) dlim lo nx rest pl n).gsd := (afterSkip_facts dlim lo nx rest pl n B h).1
-
-/-- if the first segment reaches the limit only at a fraction ≤ 0, the diameter extrapolated to fraction 0 is not below the limit -/
-theorem dmin_ge_dlim {dlim : ℝ} {lo nx : ℝ × ℝ} {rest : List (ℝ × ℝ)} {B : ℝ} (h : StrictSeg dlim lo nx rest B)
-    (hX : nx.1 - (Transc.log10 nx.2 - Transc.log10 dlim) * (nx.1 - lo.1) / (Transc.log10 nx.2 - Transc.log10 lo.2) ≤ 0) :
-    dlim ≤ pow10 (Transc.log10 nx.2 - (Transc.log10 nx.2 - Transc.log10 lo.2) * (nx.1 - (0.0:ℝ)) / (nx.1 - lo.1)) := by
-  have h2 : 0 < Transc.log10 nx.2 - Transc.log10 lo.2 := sub_pos.2 (log10_lt h.d0 h.d1)
-  have h3 : 0 < nx.1 - lo.1 := sub_pos.2 h.f1
-  set ld := Transc.log10 nx.2
-  set ll := Transc.log10 lo.2
-  set lm := Transc.log10 dlim
-  have hfn : nx.1 ≤ (ld - lm) * (nx.1 - lo.1) / (ld - ll) := by linarith
-  rw [le_div_iff₀ h2] at hfn
-  have hle : lm ≤ ld - (ld - ll) * (nx.1 - (0.0:ℝ)) / (nx.1 - lo.1) := by
-    rw [sci_zero, sub_zero]
-    have : (ld - ll) * nx.1 / (nx.1 - lo.1) ≤ ld - lm := by
-      rw [div_le_iff₀ h3]; nlinarith
-    linarith
-  have := pow10_strictMono.monotone hle
-  rwa [pow10_log10 dlim h.lim0] at this
-
-/-- discarding the points below the limit leaves a first segment that satisfies `StrictSeg` when no given diameter coincides with the limit -/
-theorem skipBelow_strict (dlim B : ℝ) (hB : B < 0.999) : ∀ (fuel : Nat) (lo nx : ℝ × ℝ) (rest : List (ℝ × ℝ)) (pl : Nat),
-    InputOK dlim lo nx rest B → (∀ p ∈ nx :: rest, p.2 ≠ dlim) → rest.length < fuel →
-    StrictSeg dlim (skipBelow dlim fuel lo nx rest pl).1 (skipBelow dlim fuel lo nx rest pl).2.1 (skipBelow dlim fuel lo nx rest pl).2.2.1 B := by
-  intro fuel
-  induction fuel with
-  | zero => intro lo nx rest pl _ _ hl; exact absurd hl (Nat.not_lt_zero _)
-  | succ k ih =>
-    intro lo nx rest pl h hne hl
-    obtain ⟨hc, hf0, hd0, hle, hlim0, hlast⟩ := h
-    have hc' := List.isChain_cons_cons.1 hc
-    unfold skipBelow
-    by_cases hgt : dlim > nx.2
-    · rw [if_pos hgt]
-      cases rest with
-      | nil =>
-        simp only [List.getLast_singleton] at hlast
-        exact absurd hlast (not_le.2 hgt)
-      | cons t rest' =>
-        simp only
-        have hc'' := List.isChain_cons_cons.1 hc'.2
-        have ht0 : ¬ feq t.1 (0.0 : ℝ) = true := by
-          rw [feq_iff_eq]
-          intro e
-          have : 0 < t.1 := by linarith [hc'.1.1, hc''.1.1]
-          rw [e] at this; norm_num at this
-        rw [if_neg ht0]
-        apply ih nx t rest' (pl - 1)
-        · refine ⟨hc'.2, by linarith [hc'.1.1], by linarith [hc'.1.2], fun p hp => hle p (List.mem_cons_of_mem _ hp), hlim0, ?_⟩
-          rw [List.getLast_cons (List.cons_ne_nil _ _)] at hlast
-          exact hlast
-        · exact fun p hp => hne p (List.mem_cons_of_mem _ hp)
-        · simp only [List.length_cons] at hl; omega
-    · rw [if_neg hgt]
-      exact
-        { f0 := hf0, f1 := hc'.1.1, d0 := hd0, d1 := hc'.1.2, lim0 := hlim0,
-          lim1 := lt_of_le_of_ne (not_lt.1 hgt) (Ne.symm (hne nx List.mem_cons_self)),
-          chain := hc'.2, le := hle, B999 := hB }
-
-/-- ordered by fraction and monotone ⇒ the diameters are strictly increasing along the sorted grading -/
-theorem pairwise_diam (l : FDict ℝ) (hs : StrictKeys l) (hm : Mono l) : l.Pairwise (fun p q => p.2 < q.2) :=
-  List.Pairwise.imp_of_mem (fun {a b} ha hb hab => hm a ha b hb hab) hs
-
 end Spec.Fracs
